@@ -621,6 +621,7 @@ type slowCase struct {
 type slowRec struct {
 	mu      sync.Mutex
 	indices []uint32
+	clocks  []string // "<event index>=<system date and time>" as delivered
 	release chan struct{}
 	entered chan struct{}
 	first   bool
@@ -630,6 +631,7 @@ func (r *slowRec) OnConnected() {}
 func (r *slowRec) OnEvent(s *types.Status) {
 	r.mu.Lock()
 	r.indices = append(r.indices, s.Event.Index)
+	r.clocks = append(r.clocks, fmt.Sprintf("%d=%s", s.Event.Index, api.DateTimeText(s.SystemDateTime)))
 	block := !r.first
 	r.first = true
 	r.mu.Unlock()
@@ -674,7 +676,14 @@ func runSlow(c slowCase, scale int) *rp.Fail {
 		spec.Header(b, 0x17, 0x20, 405419896)
 		spec.PutLE32(b[8:], index)
 		b[12] = 1
+		// every event carries a controller clock of its own: 2024-03-dd 08:mm:ss derived from its index
+		bcd := func(x uint32) byte { return byte(x/10<<4 | x%10) }
+		b[51], b[52], b[53] = 0x24, 0x03, bcd(1+index%28)
+		b[37], b[38], b[39] = 0x08, bcd(index%60), bcd(index%60)
 		return b
+	}
+	clockOf := func(index uint32) string {
+		return fmt.Sprintf("%d=2024-03-%02d 08:%02d:%02d", index, 1+index%28, index%60, index%60)
 	}
 	// event 1 (retry until the listener is bound)
 	deadline := time.Now().Add(5 * time.Second)
@@ -713,7 +722,14 @@ func runSlow(c slowCase, scale int) *rp.Fail {
 	}
 	rec.mu.Lock()
 	got := append([]uint32(nil), rec.indices...)
+	clocks := append([]string(nil), rec.clocks...)
 	rec.mu.Unlock()
+	// every delivered status is the decoding of ITS datagram: the controller clock that came with that event index
+	for i, ix := range got {
+		if i < len(clocks) && clocks[i] != clockOf(ix) {
+			return rp.Failf("uhppote.Listen/slow-consumer/wrong-fields", "event %d was delivered with system date and time %q; its datagram says %q (%d events were queued behind a busy callback)", ix, clocks[i], clockOf(ix), c.Extra)
+		}
+	}
 	// delivered events: event 1 possibly several times (it was re-sent until the listener was up), then a prefix-ordered,
 	// duplicate-free subsequence of 2..n
 	last := uint32(1)
@@ -744,7 +760,7 @@ func runSlow(c slowCase, scale int) *rp.Fail {
 
 func props() []rp.Prop {
 	slowSweep := func(yield func(slowCase) bool) {
-		cases := []slowCase{{HoldMs: 30, Extra: 1}, {HoldMs: 120, Extra: 3}, {HoldMs: 0, Extra: 2}}
+		cases := []slowCase{{HoldMs: 30, Extra: 1}, {HoldMs: 120, Extra: 3}, {HoldMs: 0, Extra: 2}, {HoldMs: 250, Extra: 40}, {HoldMs: 60, Extra: 300}}
 		if ev.Thorough() {
 			// one long hold per shard: longer than any grace period a shutdown path might use
 			cases = append(cases, slowCase{HoldMs: 3200, Extra: 2}, slowCase{HoldMs: 700, Extra: 8})
